@@ -139,7 +139,7 @@ MONO = ("C05", "monotone", "is_suffix(final(s).rest(), old(s).rest())")
 BYTE = ("C05,C18", "decodes", "r is Ok ==> old(s).rest().len() >= 1 && r->Ok_0 == old(s).rest()[0] && final(s).rest() =~= old(s).rest().skip(1)")
 WFRAME = (None, "err-prefix", "is_prefix(old(s).written(), final(s).written())")
 B = "let ghost b = s.rest();"
-PER_INT_ERR = r'Err\(Error::RdpError\(RdpError::new\(RdpErrorKind::InvalidSize, "PER integer encoded with an invalid size"\)\)\)'
+PER_INT_ERR = r'Err\(Error::RdpError\(RdpError::new\(RdpErrorKind::InvalidSize, "[^"]*"\)\)\)'
 
 UNIT = Unit("per", ["base.rs", "model.rs", "leaf.rs", "lemmas.rs"], [
     per_specs,
